@@ -157,6 +157,15 @@ impl<N: Copy> OrderMap<N> {
         assert!(idx < self.node_to_pos.len());
 
         let pos = self.node_to_pos[idx];
+        // `id` may have no entry (e.g. it was removed before): its slot then
+        // holds a stale or default position that can belong to another node.
+        let has_entry = match self.pos_to_node.get(&pos) {
+            Some(n) => graph.to_index(*n) == idx,
+            None => false,
+        };
+        if !has_entry {
+            return;
+        }
         self.node_to_pos[idx] = TopologicalPosition::default();
         self.pos_to_node.remove(&pos);
     }
